@@ -15,6 +15,7 @@ ENGINES = [
 ]
 
 HARNESSES = {
+    'C03': [dict(name='c03_interrupt', src=['C03_interrupt.cpp'], flavour='asan', ldflags=['-rdynamic'])],
     'C01': [dict(name='c01_geometric', src=['C01_geometric.cpp'], flavour='asan')],
     'C09': [dict(name='c09_copy', src=['C09_copy.cpp'], flavour='asan')],
     'C08': [dict(name='c08_bounds', src=['C08_bounds.cpp'], flavour='asan')],
@@ -40,6 +41,14 @@ DBE_NOTE = ('Trusted: the choice oracle (hook H1 + sampler-allocator seam) reall
             'g++/ASan build of libompl. Bounded: deviation bound D over the first N choice points, lattice samples, the listed worlds/configurations; silent beyond.')
 
 PROPERTY_META = {
+    'C03': dict(
+        deadline_quick=500, deadline_thorough=1700, engine='E1-DBE', design_ref='5/C03',
+        technique='exhaustive enumeration of the termination index (every k up to past the first solution) x call histories on the real planners under the choice oracle; allocation-counting state space',
+        level_text='33 single-threaded geometric planners x 3 worlds: the termination condition first fires at EVERY evaluation index k = 0..K+5, crossed with call histories over solve / '
+                   'clear / clearQuery / setProblemDefinition / getPlannerData (10 curated; thorough: all of length <= 4 and single deviations of the answer stream). Per call: bounded further '
+                   'evaluations, status vs. delta of the solution set, C01 path oracle for the current query, nothing of the old query after clear/switch, monotone best solution, ASan; after '
+                   'teardown the counting state space must hold no live state and have seen no double free.',
+        level_note=DBE_NOTE + ' Crashing or hanging histories run in forked children, are re-run alone with 10x the time limit, and are reported with their history.'),
     'C01': dict(
         deadline_quick=420, deadline_thorough=1700, engine='E1-DBE', design_ref='5/C01',
         technique='deviation-bounded exhaustive exploration of every random answer and state sample of the real planners (choice oracle), independent dense path oracle on every execution',
